@@ -36,8 +36,9 @@ abbrev M4 := Nat → Nat → Rat
 
 def ofCounts (f : Int → Int → Nat) : M4 := fun i j => ((f (i : Int) (j : Int) : Nat) : Rat)
 
-/-- tabulate once (so the driver does not re-walk the closure chain) -/
-def memo (m : M4) : M4 :=
+/-- tabulate once (so the driver does not re-walk the closure chain).  `macro_inline` (a compiler hint, the term
+is unchanged): without it the compiled `memo m` is a partial application that re-tabulates on every lookup. -/
+@[macro_inline] def memo (m : M4) : M4 :=
   let t : List (List Rat) := (List.range 4).map fun i => (List.range 4).map fun j => m i j
   fun i j => (t.getD i []).getD j 0
 
@@ -179,7 +180,7 @@ def stat : Calc → M4 → Stat
   | .logdetNoTK, m => logdetStat false m
 
 /-- the count matrix of a pair of index arrays -/
-def countsOf (s1 s2 : List Int) : M4 := memo (ofCounts (fill (s1.zip s2)))
+@[macro_inline] def countsOf (s1 s2 : List Int) : M4 := memo (ofCounts (fill (s1.zip s2)))
 
 /-- the estimator applied directly to one pair (what the property calls "the published formula on the pair") -/
 def direct (c : Calc) (s1 s2 : List Int) : Stat := stat c (countsOf s1 s2)
